@@ -119,6 +119,9 @@ def job_class(job):
 def must_keep(job):
     """guaranteed class of the reports pass: the tiny programs of family `cleanup` with a raising cleanup registered on the
     feature / rule / testrun layer -- the container's status changes when its context layer is popped, i.e. around eof"""
+    if job["prog"].get("family") == "dupsteps":
+        # scenarios whose steps compare equal (same keyword and text): every report still tells them apart
+        return job["fault"] == [0, 0]
     if job["prog"].get("family") == "capdeco":
         # ... and the small all-passing program with EVERY single hook invocation as fault: a scenario's mark / status in
         # every report is its final one (a hook or cleanup after the last step may still turn it into an error)
@@ -159,7 +162,7 @@ def _thin(jobs, quota, rnd):
 
 def plan_jobs(chk, quota, rnd):
     """a class-balanced part of the (program, cfg, fault set) triples of the shared plan"""
-    pl = stage.plan(chk.tier, chk.seed)
+    pl = stage.plan(chk.tier, chk.seed, with_dup=True)
     offs, total = [], 0
     for p, cfgs, faults in pl:
         offs.append(total)
@@ -168,7 +171,7 @@ def plan_jobs(chk, quota, rnd):
     if total > quota * 8:       # the guaranteed class survives the pre-sample
         extra = set()
         for tid, (p, cfgs, faults) in enumerate(pl):
-            if p.get("family") in ("cleanup", "capdeco"):
+            if p.get("family") in ("cleanup", "capdeco", "dupsteps"):
                 extra.update(range(offs[tid], offs[tid] + len(cfgs) * len(faults)))
         picks = sorted(set(picks) | extra)
     flats = {}
@@ -632,9 +635,10 @@ def run(chk):
     quick = chk.quick()
     # real runs first: multiprocessing forks, so no other thread of this process may be alive meanwhile
     base, planned = plan_jobs(chk, 1000 if quick else 24000, rnd)
-    fjobs = formats_jobs(chk, base, rnd)
+    # (twin-step programs only with the default switches: without multiline output a report cannot tell twins apart)
+    fjobs = formats_jobs(chk, [j for j in base if not j["prog"].get("dupsteps")], rnd)
     real_out = stage.drive_all([run_job(j) for j in base + fjobs], procs=PROCS)
-    quiet = [j for j, o in zip(base, real_out) if ((o.get("reports") or {}).get("c15") or {}).get("quiet_stdout") and
+    quiet = [j for j, o in zip(base, real_out) if not j["prog"].get("dupsteps") and ((o.get("reports") or {}).get("c15") or {}).get("quiet_stdout") and
              o["end"]["ran"] and not o["end"]["escaped"]]
     sjobs = stdout_jobs(chk, quiet)
     real_out = real_out + stage.drive_all([run_job(j) for j in sjobs], procs=PROCS)
